@@ -1076,7 +1076,11 @@ func partC(c *vf.Ctx, keys []tkey, g *keygen) {
 				case "panic":
 					cls = "accepted key panics when used: " + fam + ": " + cs.ft.name
 				default:
-					cls = "accepts a key that is not internally consistent (" + fail + "): " + fam + ": " + strings.TrimPrefix(refReason, fam+": ")
+					why := strings.TrimPrefix(refReason, fam+": ")
+					if why == "" {
+						why = "(the reference finds the file consistent)"
+					}
+					cls = "accepts a key that is not internally consistent (" + fail + "): " + fam + ": " + why
 				}
 				c.Violation(cls, det)
 				verdict = "accepted-inconsistent"
